@@ -66,6 +66,19 @@ def battery(t, data_dir, resource_xml, scratch, reverse=False):
     from wn.validate import validate
     from wn.morphy import Morphy
     t.add('lexicons', wn.lexicons())
+    # ---- the same synsets under Wordnets that differ in their expand lexicons (what they inherit differs);
+    # done first, before anything else has looked at these synsets
+    if any(lx.id == 'g9' for lx in wn.lexicons()):
+        settings = [('none', ''), ('default', None), ('explicit', 'g8:1')]
+        for label, exp in (reversed(settings) if reverse else settings):
+            with warnings.catch_warnings():
+                warnings.simplefilter('ignore')
+                we = wn.Wordnet('g9:1') if exp is None else wn.Wordnet('g9:1', expand=exp)
+            corpus = [str(x.lemma()) for x in we.words()]
+            t.add(f'expand={label} ic.compute', wn.ic.compute(corpus, we))
+            for x in we.synsets():
+                t.add(f'expand={label} {canon(x)}.hypernyms', x.hypernyms())
+                t.add(f'expand={label} {canon(x)}.hypernym_paths', x.hypernym_paths())
     selections = [None] + [[lx.specifier()] for lx in wn.lexicons()]
     fams = [lx for lx in wn.lexicons() if lx.extensions()]
     for lx in fams:
@@ -162,6 +175,16 @@ def battery(t, data_dir, resource_xml, scratch, reverse=False):
             for x in words:
                 for sfx in ('', 's', 'es', 'ing'):
                     t.add(f'{tag} morphy({str(x.lemma()) + sfx!r})', m(str(x.lemma()) + sfx))
+    # ---- a Wordnet that lemmatizes: several candidate lemmas belonging to different entries
+    if any(lx.id == 'mo' for lx in wn.lexicons()):
+        for init in (False, True):
+            wl = wn.Wordnet('mo:1')
+            wl.lemmatizer = Morphy(wl) if init else Morphy()
+            for q in ('axes', 'leaves', 'axe', 'axs', 'leafs'):
+                for pos in (None, 'n', 'v'):
+                    t.add(f'lemmatized({init}) words({q!r},{pos})', wl.words(q, pos))
+                    t.add(f'lemmatized({init}) senses({q!r},{pos})', wl.senses(q, pos))
+                    t.add(f'lemmatized({init}) synsets({q!r},{pos})', wl.synsets(q, pos))
     # ---- export (database -> bytes)
     for lx in wn.lexicons():
         if lx.extends() is None:
@@ -203,19 +226,28 @@ def main():
     wn.lexicons()
     conn = list(wn._db.pool.values())[0]
     changes0 = conn.total_changes
+    reverse_first = len(sys.argv) > 4 and sys.argv[4] == 'reverse-first'
+    extra = []
+    t0 = None
+    if reverse_first:
+        # this process meets the calls in the opposite order first: whatever an earlier read-only call leaves behind
+        # (caches, memoised lists) is then different from a process that starts with the forward order
+        t0 = Transcript()
+        battery(t0, data_dir, resource_xml, scratch, reverse=True)
     t1 = Transcript()
     with mon.call('battery'):
         battery(t1, data_dir, resource_xml, scratch)
     writes = [s for k, s in mon.stmts if k in ('WRITE', 'DDL')]
     t2 = Transcript()
     battery(t2, data_dir, resource_xml, scratch)
-    extra = []
     if t1.lines != t2.lines:
         i = next(i for i, (a, b) in enumerate(zip(t1.lines, t2.lines)) if a != b)
         extra.append(f'REPEAT-DIFF line {i}: {t1.lines[i][:300]} ||| {t2.lines[i][:300]}')
-    # third pass: the per-entity calls in reverse order - same values expected (compared as sorted lines)
-    t3 = Transcript()
-    battery(t3, data_dir, resource_xml, scratch, reverse=True)
+    # the per-entity calls in reverse order - same values expected (compared as sorted lines)
+    t3 = t0
+    if t3 is None:
+        t3 = Transcript()
+        battery(t3, data_dir, resource_xml, scratch, reverse=True)
     a, b = sorted(t1.lines), sorted(t3.lines)
     if a != b:
         i = next((i for i, (x, y) in enumerate(zip(a, b)) if x != y), min(len(a), len(b)))
